@@ -4,6 +4,7 @@ import Lemmas.Syntax
 import Model.Numscript.VM
 import Lemmas.NumRun
 import Lemmas.NumRunEq
+import Lemmas.NumFront
 import Lemmas.NumCheck
 import Lemmas.NumBytecode
 import Generated.Opcodes
@@ -429,9 +430,31 @@ theorem rejected_not_run_text (t : String) (P : Script) (req : Request) (store :
   rw [text_runs_its_tree t P req store h]
   exact rejected_not_run P req store hc
 
+/-- what the front end accepts satisfies the side conditions of `compile_correct` — for a text shorter than 2^64
+characters (every list of the syntax tree is then shorter than 2^64; the parser builds no portion literal with a
+zero denominator; the grammar requires a statement) -/
+theorem front_wellFormed (t : String) (P : Script) (h : front t = some P) (hlen : t.toList.length < 18446744073709551616) :
+    P.wellFormed :=
+  Num.front_wellFormed (by unfold front at h; exact h) hlen
+
+/-- **compiled programs do what the source TEXT says**: for every text the front end accepts (shorter than 2^64
+characters) and the compiler accepts, every variable map and every store, running the compiled bytecode on the VM
+yields exactly the observations — or the error class — of `runText` (= lex, parse, `Spec.run`).  No hypothesis on
+the syntax tree is left. -/
+theorem compile_correct_text (t : String) (P : Script) (h : front t = some P) (hlen : t.toList.length < 18446744073709551616)
+    (prog : Program) (hc : compile P = .ok prog) (req : Request) (store : Store) :
+    (VM.run prog req store).map VM.Result.obs = VM.Outcome.ofExcept ((runText t req store).map Num.Result.obs) := by
+  rw [text_runs_its_tree t P req store h]
+  exact compile_correct P prog hc (front_wellFormed t P h hlen) req store
+
 /-! non-vacuity: a rejected and an accepted text -/
 example : front "fail fail" = none := by decide
 example : (front "save [USD 1] from @a").isSome = true := by decide
+/-- the hypotheses of `compile_correct_text` are satisfiable (larger texts: the front-end differential) -/
+example : ∃ P, front "save [USD 1] from @a" = some P ∧ "save [USD 1] from @a".toList.length < 18446744073709551616 := by
+  have h : (front "save [USD 1] from @a").isSome = true := by decide
+  obtain ⟨P, hP⟩ := Option.isSome_iff_exists.mp h
+  exact ⟨P, hP, by decide⟩
 example : ∃ e, lex "fail #" = .error e := ⟨⟨1⟩, by rfl⟩
 
 end C08
